@@ -157,9 +157,15 @@ class Inter:
                         else:
                             events.append(it2)
                             items.append(("e", it2))
-        # contradictory facts about the same atom
+        # contradictory facts about the same atom; `x == Variant` is the same test as `match x { Variant => .. }`
+        def _canon(a, o):
+            if tag(a) == "op" and payload(a)[0] == "eq" and len(kids(a)) == 2 and o in (True, False):
+                for x, y in (kids(a), kids(a)[::-1]):
+                    if tag(y) == "agg" and not kids(y) and tag(x) != "agg":
+                        return sym.op("discr", x), (("variant", payload(y)[1]) if o else ("other", (payload(y)[1],)))
+            return a, o
         seen = {}
-        for (a, o, _b, _l) in conds:
+        for (a, o, _b, _l) in [_canon(c[0], c[1]) + (c[2], c[3]) for c in conds]:
             if a in seen and seen[a] != o:
                 o1 = seen[a]
                 if o in (True, False) and o1 in (True, False):
